@@ -412,6 +412,57 @@ func (x *gOptCtx) cladeOf(rt *rapid.T) int {
 	return x.tree.Taxid[path[rapid.IntRange(0, len(path)-1).Draw(rt, "clade_level")]]
 }
 
+// optValue draws one occurrence of the selection option k with a value read
+// off the records of the case (the identifier list goes to c.IDList; the
+// modifiers of --approx-pattern are those already drawn in c).
+func (x *gOptCtx) optValue(rt *rapid.T, c *grepCase, k string, usedA map[string]bool) (gOpt, bool) {
+	o := gOpt{Name: k, Long: rapid.IntRange(0, 3).Draw(rt, "long_name") == 0}
+	switch k {
+	case "-l", "-L":
+		o.Val = strconv.Itoa(gAround(rt, len(x.pivot(rt).Seq)))
+	case "-c", "-C":
+		o.Val = strconv.Itoa(gAround(rt, x.pivot(rt).gCount()))
+	case "-s":
+		o.Val = x.seqPattern(rt)
+	case "-D":
+		o.Val = x.defPattern(rt)
+	case "-I":
+		o.Val = x.idPattern(rt)
+	case "-A":
+		o.Val = x.attrKey(rt)
+	case "-a":
+		v, ok := x.attrPattern(rt, usedA)
+		if !ok {
+			return o, false
+		}
+		o.Val = v
+	case "-p":
+		o.Expr = x.expr(rt, 2)
+	case "--id-list":
+		for _, r := range c.Recs {
+			if rapid.Bool().Draw(rt, "listed") {
+				c.IDList = append(c.IDList, r.ID)
+			}
+		}
+		for j := rapid.IntRange(0, 2).Draw(rt, "n_junk"); j > 0; j-- {
+			junk := rapid.SampledFrom([]string{"zz_99", "", "a", "a_", "_0", "ab_1x"}).Draw(rt, "junk_id")
+			pos := rapid.IntRange(0, len(c.IDList)).Draw(rt, "junk_pos")
+			c.IDList = append(c.IDList[:pos], append([]string{junk}, c.IDList[pos:]...)...)
+		}
+		if len(c.IDList) > 0 && rapid.IntRange(0, 3).Draw(rt, "dup_id") == 0 {
+			c.IDList = append(c.IDList, c.IDList[0])
+		}
+		c.IDListNoEOL = rapid.IntRange(0, 3).Draw(rt, "no_final_newline") == 0
+	case "-r", "-i":
+		o.Val = strconv.Itoa(x.cladeOf(rt))
+	case "--require-rank":
+		o.Val = rapid.SampledFrom(c.Tree.Ranks()).Draw(rt, "rank")
+	case gApproxOpt:
+		o.Val = x.approxPattern(rt, c.approx())
+	}
+	return o, true
+}
+
 // ------------------------------------------------------------------ the case
 
 var gMaxCPUs = []int{0, 0, 1, 2, 3, 8}
@@ -437,15 +488,22 @@ func genGrepCase(rt *rapid.T, plan gPlan) grepCase {
 			kinds = append(kinds, k)
 		}
 	}
-	needTax := false
+	needTax, hasApprox := false, false
 	for _, k := range kinds {
 		needTax = needTax || gIsTax(k)
+		hasApprox = hasApprox || k == gApproxOpt
+	}
+	if hasApprox { // --pattern-error, --allows-indels, --only-forward: shared by every --approx-pattern
+		gDrawApproxMods(rt, &c)
 	}
 
 	// ---- the records
 	paired := plan.Paired > 0 || (plan.Paired == 0 && rapid.IntRange(0, 3).Draw(rt, "paired") == 0)
 	c.Fastq = rapid.IntRange(0, 2).Draw(rt, "fastq") == 0
 	ctx := gRecCtx{fastq: c.Fastq, iupac: rapid.IntRange(0, 4).Draw(rt, "iupac") == 0}
+	if hasApprox {
+		ctx.iupac = false // reads over acgt when an approximate pattern is searched (Domain decisions, grep_approx_test.go)
+	}
 	for _, k := range gUniKeys {
 		if rapid.Bool().Draw(rt, "uni_"+k) {
 			ctx.uni = append(ctx.uni, k)
@@ -476,47 +534,9 @@ func genGrepCase(rt *rapid.T, plan gPlan) grepCase {
 	usedA := map[string]bool{}
 	effective := false
 	for _, k := range kinds {
-		o := gOpt{Name: k, Long: rapid.IntRange(0, 3).Draw(rt, "long_name") == 0}
-		switch k {
-		case "-l", "-L":
-			o.Val = strconv.Itoa(gAround(rt, len(x.pivot(rt).Seq)))
-		case "-c", "-C":
-			o.Val = strconv.Itoa(gAround(rt, x.pivot(rt).gCount()))
-		case "-s":
-			o.Val = x.seqPattern(rt)
-		case "-D":
-			o.Val = x.defPattern(rt)
-		case "-I":
-			o.Val = x.idPattern(rt)
-		case "-A":
-			o.Val = x.attrKey(rt)
-		case "-a":
-			v, ok := x.attrPattern(rt, usedA)
-			if !ok {
-				continue
-			}
-			o.Val = v
-		case "-p":
-			o.Expr = x.expr(rt, 2)
-		case "--id-list":
-			for _, r := range c.Recs {
-				if rapid.Bool().Draw(rt, "listed") {
-					c.IDList = append(c.IDList, r.ID)
-				}
-			}
-			for j := rapid.IntRange(0, 2).Draw(rt, "n_junk"); j > 0; j-- {
-				junk := rapid.SampledFrom([]string{"zz_99", "", "a", "a_", "_0", "ab_1x"}).Draw(rt, "junk_id")
-				pos := rapid.IntRange(0, len(c.IDList)).Draw(rt, "junk_pos")
-				c.IDList = append(c.IDList[:pos], append([]string{junk}, c.IDList[pos:]...)...)
-			}
-			if len(c.IDList) > 0 && rapid.IntRange(0, 3).Draw(rt, "dup_id") == 0 {
-				c.IDList = append(c.IDList, c.IDList[0])
-			}
-			c.IDListNoEOL = rapid.IntRange(0, 3).Draw(rt, "no_final_newline") == 0
-		case "-r", "-i":
-			o.Val = strconv.Itoa(x.cladeOf(rt))
-		case "--require-rank":
-			o.Val = rapid.SampledFrom(c.Tree.Ranks()).Draw(rt, "rank")
+		o, ok := x.optValue(rt, &c, k, usedA)
+		if !ok {
+			continue
 		}
 		switch k {
 		case "-l", "-c":
